@@ -12,7 +12,7 @@ def add(pid, technique, text, note, ref):
     CHECKS[pid] = (technique, text, note, ref)
 
 add("C01", "runtime monitor: hostile-workload totality oracle, worker processes with CPU watchdog",
-    "Every entry point is driven with tag-soup trees, every/sampled element of generated pages as attached and detached root, 24 kinds of hand-built roots, structure-aware byte mutations through ApplyForReader/ApplyForFile, hostile pagers, an insertion-mode stress family of the HTML parser through seven text-parsing routes, byte streams in 14 non-UTF-8 encodings, size stress (incl. flat runs of 1.4 million siblings under a 250 MB stack limit) and all option shapes; each call runs under recover() inside a worker process whose death, and whose CPU consumption per case (60 s bound), the parent observes. Oracle: no panic, no process death, bounded CPU, err != nil or Result.Node is a <div>. Held on ~50k (quick) / ~1.2M (thorough) calls; termination is decided as bounded progress only. Four open known findings (one root cause: an endless loop in html.Parse of the pinned golang.org/x/net v0.10.0, signed by the call site of the hang) are listed in known_findings.txt and printed as KNOWN-FINDING lines.",
+    "Every entry point is driven with tag-soup trees, every/sampled element of generated pages as attached and detached root, 24 kinds of hand-built roots, structure-aware byte mutations through ApplyForReader/ApplyForFile, hostile pagers, an insertion-mode stress family of the HTML parser through seven text-parsing routes, byte streams in 14 non-UTF-8 encodings, boundary addresses (4 hosts x 48 path shapes) in every element that takes a URL apart, conventional pagers in all decorations, size stress (incl. flat runs of 1.4 million siblings under a 250 MB stack limit) and all option shapes; each call runs under recover() inside a worker process whose death, and whose CPU consumption per case (60 s bound), the parent observes. Oracle: no panic, no process death, bounded CPU, err != nil or Result.Node is a <div>. Held on ~50k (quick) / ~1.2M (thorough) calls; termination is decided as bounded progress only. Four open known findings (one root cause: an endless loop in html.Parse of the pinned golang.org/x/net v0.10.0, signed by the call site of the hang) are listed in known_findings.txt and printed as KNOWN-FINDING lines.",
     "Trusted: Go runtime's recover/rusage, the journal that names the case in flight. Inputs are <= ~1 MB and <= 2000 nesting levels (flat runs <= 5.6 MB); cyclic graphs and nil roots are outside the contract.",
     "DESIGN.md §5 C01")
 add("C02", "runtime monitor: token-ledger oracle over generated pages",
@@ -52,7 +52,7 @@ add("C10", "runtime monitor: deep before/after snapshots of caller-owned trees, 
     "Trusted: the snapshot covers everything html.Node exposes; loopback networking works in the sandbox.",
     "DESIGN.md §5 C10")
 add("C11", "runtime monitor: repeated-run and cross-process result equality (map-order / history independence), entry-point equivalence",
-    "Each input runs R times in one process (R=8/40 for pagination-bearing inputs) alternating the three entry points, and once more in another worker process in reverse order; all result fields except TimingInfo must be equal; byte inputs in legacy charsets and sparse UTF-8 are repeated 24/60 times (charset guess), and a page in NFD and in NFC form must give the same result through the byte entry points. Probabilistic per input for map-order dependence (bounds in DESIGN.md); held on ~20k repetition comparisons and ~3k cross-process pairs per quick run.",
+    "Each input runs R times in one process (R=8/40 for pagination-bearing inputs) alternating the three entry points, and once more in another worker process in reverse order; all result fields except TimingInfo must be equal; byte inputs in legacy charsets and sparse UTF-8 are repeated 24/60 times (charset guess), a page in NFD and in NFC form must give the same result through the byte entry points, and pairs of pages whose page URL + reference concatenate to the same text run in both orders in two processes. Probabilistic per input for map-order dependence (bounds in DESIGN.md); held on ~20k repetition comparisons and ~3k cross-process pairs per quick run.",
     "Trusted: Go re-randomises map iteration per range statement; field-wise comparison with nil = empty slice.",
     "DESIGN.md §5 C11")
 add("C12", "Go race detector (-race build, halt_on_error=0, log scan) + isolation oracle (concurrent result = sequential result) with measured overlap",
